@@ -192,3 +192,38 @@ Proof.
     assert (cnt y (refs (ls_led L)) = cnt y (omega V s)) by (rewrite <- Hm; unfold lib_refs; rewrite cnt_filter_lib, El; reflexivity).
     rewrite <- Hom in Hc. lia.
 Qed.
+
+(* close, then fini: from ANY state the protocol can be in, the close sequence followed by the
+   fini frees leaves the library without a single message reference (no leak), the ledger
+   balanced all the way *)
+Section Close.
+  Context {St : Type} (V : view St) (step : St -> pop -> St * list pout)
+          (Inv : St -> Prop) (ok : St -> pop -> Prop) (script : St -> list pop).
+  Hypothesis Hlaw : proto_law V step Inv ok.
+  Hypothesis Hdrain : forall s, Inv s -> ops_ok step ok s (script s) /\ drained V (run step s (script s)).
+
+  Theorem no_leak_after_close : forall s L, Inv s -> linv V L s ->
+    exists L1 L2, replay_run V step L s (script s) = Some (L1, run step s (script s)) /\
+      do_aevs L1 (fini_evs V (run step s (script s))) = Some L2 /\
+      balanced (ls_led L2) /\ lib_refs (ls_led L2) = [].
+  Proof.
+    intros s L Hi Hl. destruct (Hdrain s Hi) as [Hok Hd].
+    destruct (replay_run_ok V step Inv ok Hlaw (script s) s L Hi Hl Hok) as [L1 [R [Hl1 _]]].
+    destruct (fini_clears V L1 _ Hl1 Hd) as [L2 [F [Hb He]]].
+    exists L1, L2. split; [exact R|]. split; [exact F|]. split; assumption.
+  Qed.
+
+  (* ... in particular after any history from the initial state *)
+  Theorem no_leak_after_history_and_close : forall init ops, Inv init -> omega V init = [] -> ops_ok step ok init ops ->
+    let s := run step init ops in
+    exists L0 L1 L2, replay_run V step ls_init init ops = Some (L0, s) /\
+      replay_run V step L0 s (script s) = Some (L1, run step s (script s)) /\
+      do_aevs L1 (fini_evs V (run step s (script s))) = Some L2 /\
+      balanced (ls_led L2) /\ lib_refs (ls_led L2) = [].
+  Proof.
+    intros init ops Hi Ho Hok s.
+    destruct (replay_run_ok V step Inv ok Hlaw ops init ls_init Hi (linv_init V init Ho) Hok) as [L0 [R0 [Hl0 Hi0]]].
+    destruct (no_leak_after_close (run step init ops) L0 Hi0 Hl0) as [L1 [L2 [R1 [F [Hb He]]]]].
+    exists L0, L1, L2. split; [exact R0|]. split; [exact R1|]. split; [exact F|]. split; assumption.
+  Qed.
+End Close.
